@@ -105,9 +105,14 @@ theorem facts0 (e : Env) (rc rs : IdRel) (evs : List PEv) : propsOk (timelyRun e
 theorem always0 (e : Env) (rc rs : IdRel) (evs : List PEv) : alwaysOkCore (timelyRun e rc rs evs) = true := by
   have h := facts0 e rc rs evs
   simp only [propsOk, alwaysOk, Bool.and_eq_true] at h
-  exact h.1.1
+  exact h.1.1.1
 
 theorem kept0 (e : Env) (rc rs : IdRel) (evs : List PEv) : pendingKept (timelyRun e rc rs evs) = true := by
+  have h := facts0 e rc rs evs
+  simp only [propsOk, alwaysOk, Bool.and_eq_true] at h
+  exact h.1.1.2
+
+theorem cancel0 (e : Env) (rc rs : IdRel) (evs : List PEv) : cancelFinal (timelyRun e rc rs evs) = true := by
   have h := facts0 e rc rs evs
   simp only [propsOk, alwaysOk, Bool.and_eq_true] at h
   exact h.1.2
@@ -205,6 +210,21 @@ theorem C03_pending_kept (e : Env) (rc rs : IdRel) (evs : List PEv) (ha : e.allo
     rcases hs with hs | hs <;> rw [hs] <;> rfl
   simp only [pendingKept, c.1, c.2.1, ha, hc, hl, Bool.not_false, Bool.and_self, Bool.not_true, Bool.false_or] at h
   exact h
+
+/-- **C03 (a cancellation is final)**: once the user has cancelled while the server side was waiting in the hello phase
+    (pending or ready), neither side ever completes and nobody sets up the remote device - whatever is still under
+    way. In every state of every run. -/
+theorem C03_cancel_final (e : Env) (rc rs : IdRel) (evs : List PEv) (hc : (timelyRun e rc rs evs).cancelled = true) :
+    (timelyRun e rc rs evs).p.c.st ≠ .complete ∧ (timelyRun e rc rs evs).p.s.st ≠ .complete ∧
+    (timelyRun e rc rs evs).setC = .zero ∧ (timelyRun e rc rs evs).setS = .zero := by
+  have h := cancel0 e rc rs evs
+  simp only [cancelFinal, hc, Bool.not_true, Bool.false_or, Bool.and_eq_true, Bool.not_eq_true'] at h
+  obtain ⟨⟨⟨a, b⟩, c1⟩, d⟩ := h
+  refine ⟨?_, ?_, ?_, ?_⟩
+  · intro hh; rw [hh] at a; cases a
+  · intro hh; rw [hh] at b; cases b
+  · cases hs : (timelyRun e rc rs evs).setC <;> simp_all [Cnt3.isZero]
+  · cases hs : (timelyRun e rc rs evs).setS <;> simp_all [Cnt3.isZero]
 
 /-- **C03 (set up exactly once, ids learned)**: nobody is set up twice; a side in the completed state has been set
     up exactly once and holds the other side's SHIP id; a side that holds a different id for the peer never completes -/
